@@ -5,7 +5,10 @@
 //! each the list of indexed surfaces as UTF-8 hex; `ck_variant` = which `Ordering::Equal` arm of
 //! `NonBreakChecker::has_non_break_word` the tree has, found by probing its source: `fix` when the
 //! arm slices the matched word `input[i..end_byte]` (repair of D12), `cur` otherwise).
-//! Answer: `ok eos=<get_eos of the whole text> ranges=<b:e,b:e,...>` (byte ranges of the iterator).
+//! Answer: `ok eos=<get_eos of the whole text> ranges=<b:e,b:e,...> steps=<rv,rv,...>` (byte ranges of
+//! the iterator; `steps` = the value of `get_eos` on `text[b..]` for the start `b` of every sentence, i.e.
+//! what each call of `SentenceIter::next` saw, the negative provisional boundary of the last call
+//! included; `-` when the iteration itself panicked or did not stop).
 use crate::common::*;
 use crate::dict;
 use sudachi::dic::dictionary::JapaneseDictionary;
@@ -265,7 +268,54 @@ fn directed() -> Vec<(String, usize, Option<Vec<&'static str>>)> {
         v.push((t.to_string(), 4096, Some(ws.to_vec())));
         v.push((t.to_string(), 3, Some(ws.to_vec())));
     }
+    // The window edge: the terminator is the LAST character of the window and lies inside (or ends) a
+    // dictionary word; the non-break checker must see the whole remaining text, not the window.
+    let edge_cases: &[(&str, &[&'static str])] = &[
+        ("ばな。なです。", &["な。な"]),              // limit 3: `。` is the 3rd character, the word goes on
+        ("ばなな。です。", &["なな。"]),              // limit 4: the word ends with the terminator at the edge
+        ("Yahoo!ニュースです。", &["Yahoo!ニュース"]),  // limit 6
+        ("あい。う。え。", &["い。う"]),               // limit 3
+        ("𠮷é。a!い。", &["é。a!"]),                   // limit 3, 4-/2-byte characters before the edge
+        ("あ?」と。い。", &["?」と"]),                  // limit 2 / 3: closer + quote particle inside the word
+        ("あ・・・い。う。", &["・・・い"]),             // limit 4
+        ("ばな。なです。", &["な。な", "な。"]),       // a shorter multi-character word ends on the terminator
+        ("ばな。なです。", &["な。な", "。"]),         // + the terminator itself as a one-character word
+    ];
+    for (t, ws) in edge_cases {
+        let n = t.chars().count();
+        for limit in 1..=n + 1 {
+            v.push((t.to_string(), limit, Some(ws.to_vec())));
+        }
+        v.push((t.to_string(), 4096, None));
+    }
+    // the same with the default window: 4096 - k characters of padding so that the terminator is the
+    // 4096th character (pad 4093 for `ばな。な…`), and the neighbours of that padding
+    for pad in [4091usize, 4092, 4093, 4094, 4095] {
+        v.push((format!("{}ばな。なです。", "あ".repeat(pad)), 4096, Some(vec!["な。な"])));
+    }
+    v.push((format!("{}ばなな。です。", "あ".repeat(4092)), 4096, Some(vec!["なな。"])));
+    v.push((format!("{}Yahoo!ニュースです。", "ア".repeat(4090)), 4096, Some(vec!["Yahoo!ニュース"])));
+    v.push((format!("{}ばな。なです。", "𠮷".repeat(4093)), 4096, Some(vec!["な。な", "。"])));
+    v.push((format!("{}ばな。なです。", "あ".repeat(4093)), 4096, None));
     v
+}
+
+/// characters of the oracle's terminator classes (for the window-edge generator)
+fn is_term_char(c: char) -> bool { is_period(c) || is_dot(c) || c == CDOT || c == '>' }
+
+/// A text whose first window (of `limit` characters) ends exactly on a terminator character that lies
+/// inside the dictionary word `w` (character index `p` of `w`): `limit - (p + 1)` filler characters
+/// without any terminator, the word, a random tail.
+fn gen_edge_text(rng: &mut Rng, words: &[String], w: &str, p: usize, limit: usize, tail_tokens: usize) -> String {
+    const FILL: &[&str] = &["あ", "い", "ア", "𠮷", "é", "漢", "a", "ん", "9"];
+    let mut s = String::new();
+    let one = rng.pick(FILL).to_string();
+    for _ in 0..limit - (p + 1) {
+        if limit > 64 { s.push_str(&one); } else { let f: &str = *rng.pick(FILL); s.push_str(f); }
+    }
+    s.push_str(w);
+    s.push_str(&gen_text(rng, words, tail_tokens));
+    s
 }
 
 fn build_directed_dic(words: &[&str], tag: &str) -> Result<Dic, String> {
@@ -301,6 +351,7 @@ fn impl_ck_variant() -> &'static str {
 struct Observed {
     eos: String,
     ranges: Result<Vec<(usize, usize, String)>, String>, // Err = PANIC / NONTERMINATION
+    steps: String,
 }
 
 fn observe(text: &str, limit: usize, dic: Option<&Dic>) -> Observed {
@@ -340,7 +391,29 @@ fn observe(text: &str, limit: usize, dic: Option<&Dic>) -> Observed {
         Ok(Err(_)) => Err("NONTERMINATION".to_string()),
         Ok(Ok(v)) => Ok(v),
     };
-    Observed { eos, ranges }
+    // what every call of `next` saw: get_eos on the rest of the text at each sentence start
+    let steps = match &ranges {
+        Err(_) => "-".to_string(),
+        Ok(v) => v.iter().map(|(b, _, _)| {
+            if !text.is_char_boundary(*b) || *b > text.len() { return "PANIC".to_string(); }
+            let r = catch(|| {
+                let det = SentenceDetector::with_limit(limit);
+                match dic {
+                    Some(d) => {
+                        let ck = NonBreakChecker::new(d.dic.lexicon());
+                        det.get_eos(&text[*b..], Some(&ck))
+                    }
+                    None => det.get_eos(&text[*b..], None),
+                }
+            });
+            match r {
+                Err(_) => "PANIC".to_string(),
+                Ok(Err(_)) => "err".to_string(),
+                Ok(Ok(v)) => v.to_string(),
+            }
+        }).collect::<Vec<_>>().join(","),
+    };
+    Observed { eos, ranges, steps }
 }
 
 // ---------------------------------------------------------------------------------------------
@@ -482,7 +555,7 @@ fn oracle(text: &str, limit: usize, keys: Option<&Vec<Vec<char>>>, obs: &Observe
 // ---------------------------------------------------------------------------------------------
 pub fn run(run: &mut Run) {
     run.rule = "texts over terminators (。？！♪…?!.．・), brackets, commas, digits/letters with periods, itemise headers, quote particles, \
-<br> tags, white space incl. newlines, 1-4 byte characters and dictionary words; limits 1..8 and 4096 (plus texts longer than 4096); \
+<br> tags, white space incl. newlines, 1-4 byte characters and dictionary words; limits 1..8 and 4096 (plus texts longer than 4096); window-edge cases (the last character of the window is a terminator inside / at the end of a dictionary word, small windows and 4096); \
 no checker / system dictionary / system+user dictionaries, with and without one-character terminator entries; \
 non-trivial = at least two sentences or a vetoed terminator; distinct by limit+dictionary+text".into();
     let n = run.opts.count;
@@ -513,15 +586,42 @@ non-trivial = at least two sentences or a vetoed terminator; distinct by limit+d
             };
             (t.clone(), *l, own.as_ref())
         } else {
-            let dic = if rng.chance(1, 2) { None } else { pool[rng.below(N_DICS)].as_ref() };
+            // window-edge cases: every 7th case with a small window, every 151st with the default one
+            let edge_small = idx % 7 == 3;
+            let edge_big = idx % 151 == 75;
+            let dic = if edge_small || edge_big { pool[rng.below(N_DICS)].as_ref() }
+                      else if rng.chance(1, 2) { None } else { pool[rng.below(N_DICS)].as_ref() };
             let words: Vec<String> = dic.map_or(vec![], |d| d.lexs.iter().flatten().cloned().collect());
+            // (word, index of a terminator character in it); inner positions three times as likely
+            let mut cands: Vec<(String, usize)> = vec![];
+            if edge_small || edge_big {
+                for w in &words {
+                    let cs: Vec<char> = w.chars().collect();
+                    if cs.len() < 2 { continue; }
+                    for (p, c) in cs.iter().enumerate() {
+                        if is_term_char(*c) {
+                            let reps = if p + 1 < cs.len() { 3 } else { 1 };
+                            for _ in 0..reps { cands.push((w.clone(), p)); }
+                        }
+                    }
+                }
+            }
             let long = idx % 997 == 500;
-            let mut text = gen_text(&mut rng, &words, if run.opts.thorough { 40 } else { 24 });
-            let limit = if long {
-                text = format!("{}{}", "あ".repeat(4090 - rng.below(3)), text);
-                4096
-            } else if rng.chance(1, 4) { 4096 } else { rng.range(1, 8) };
-            (text, limit, dic)
+            if !cands.is_empty() {
+                let (w, p) = rng.pick(&cands).clone();
+                let limit = if edge_big { 4096 } else { (p + 1) + rng.below(8 - p.min(7)) };
+                let text = gen_edge_text(&mut rng, &words, &w, p, limit, if edge_big { 4 } else { 8 });
+                run.bump(if edge_big { "edge:terminator-in-word-at-window-edge:4096" } else { "edge:terminator-in-word-at-window-edge:small" });
+                if p + 1 < w.chars().count() { run.bump("edge:word-continues-beyond-window"); } else { run.bump("edge:word-ends-at-window-edge"); }
+                (text, limit, dic)
+            } else {
+                let mut text = gen_text(&mut rng, &words, if run.opts.thorough { 40 } else { 24 });
+                let limit = if long {
+                    text = format!("{}{}", "あ".repeat(4090 - rng.below(3)), text);
+                    4096
+                } else if rng.chance(1, 4) { 4096 } else { rng.range(1, 8) };
+                (text, limit, dic)
+            }
         };
         let lex_field = match dic {
             None => String::new(),
@@ -533,7 +633,7 @@ non-trivial = at least two sentences or a vetoed terminator; distinct by limit+d
             Ok(r) => r.iter().map(|(b, e, _)| format!("{}:{}", b, e)).collect::<Vec<_>>().join(","),
             Err(e) => e.clone(),
         };
-        let answer = format!("ok eos={} ranges={}", obs.eos, ranges_s);
+        let answer = format!("ok eos={} ranges={} steps={}", obs.eos, ranges_s, obs.steps);
         let keys: Option<Vec<Vec<char>>> = dic.map(|d| d.lexs.iter().flatten().map(|w| w.chars().collect()).collect());
         let verdict = if limit == 0 {
             run.bump("limit:0-outside-the-property-correspondence-only");
